@@ -328,7 +328,7 @@ class DataSet(list):
 
     """
     def __init__(self, datapoints=None, datafile=None):
-        if datapoints:
+        if datapoints is not None:
             list.__init__(self, datapoints)
         else:
             # we have datafile
